@@ -2,6 +2,7 @@ import SynRBLModel.Driver.JsonUtil
 import SynRBLModel.Driver.Ops.Core
 import SynRBLModel.Model.Pipeline
 import SynRBLModel.Model.Batching
+import SynRBLModel.Model.StatsDict
 /-! Driver ops of the row state machine. Oracle answers recorded from the real run travel with the op. -/
 namespace SynRBL.Drv.Pipeline
 open Lean SynRBL.Drv
@@ -77,8 +78,20 @@ def opChunks (j : Json) : R Json := do
   return Json.mkObj [("chunks", listJ (listJ intJ) (chunks n (xs.length + 1) xs)),
     ("batches", listJ (listJ intJ) (batchesOf n xs))]
 
+/-- `merge_stats(stats, new_stats)` on two dictionaries; `"fold"`: a whole sequence of batch dictionaries merged into `{}` -/
+def opMergeStats (j : Json) : R Json := do
+  match optF j "fold" with
+  | some f =>
+    let ds ← (← toList f).mapM parseDict
+    return Json.mkObj [("merged", dictJ (ds.foldl mergeStats []))]
+  | none =>
+    let s ← parseDict (← field j "s")
+    let n ← parseDict (← field j "n")
+    return Json.mkObj [("merged", dictJ (mergeStats s n))]
+
 def dispatch? (op : String) (j : Json) : Option (R Json) :=
   match op with
+  | "mergeStats" => some (opMergeStats j)
   | "pipelineRow" => some (opPipelineRow j)
   | "chunks" => some (opChunks j)
   | _ => none
